@@ -61,6 +61,9 @@ func NoDeadlock(label string) {}
 // CtxWithBearer: an incoming-request context carrying (or not) a bearer token.
 func CtxWithBearer(token string, present bool) context.Context { return nil }
 
+// CtxWithAuthHeader: an incoming-request context whose "authorization" metadata value is header (or absent).
+func CtxWithAuthHeader(header string, present bool) context.Context { return nil }
+
 // SetConfig sets a configuration value (viper).
 func SetConfig(key, value string) {}
 
